@@ -180,10 +180,32 @@ fn ssl_tlv(rng: &mut Rng, room: usize) -> Vec<u8> {
             }
         }
     }
+    // one in four: the nested area does not tile - one or two dangling bytes, or a sub-TLV that
+    // announces more than the SSL value holds
+    if value.len() + 4 <= room {
+        match rng.below(8) {
+            0 => value.push(0x21),
+            1 => value.extend_from_slice(&[0x22, 0x00]),
+            2 => value.extend_from_slice(&[0x23, 0x00, 0x09, b'x']),
+            _ => {}
+        }
+    }
     let mut out = vec![0x20];
     out.extend_from_slice(&(value.len() as u16).to_be_bytes());
     out.extend_from_slice(&value);
     out
+}
+
+/// CRC-32C (Castagnoli), bitwise; for the PP2_TYPE_CRC32C TLV of short headers.
+pub fn crc32c(data: &[u8]) -> u32 {
+    let mut crc: u32 = !0;
+    for &b in data {
+        crc ^= b as u32;
+        for _ in 0..8 {
+            crc = if crc & 1 != 0 { (crc >> 1) ^ 0x82F6_3B78 } else { crc >> 1 };
+        }
+    }
+    !crc
 }
 
 /// Thousands of tiny TLVs: counts around the powers of two and the maximum that fits.
@@ -259,6 +281,25 @@ pub fn wellformed_section(rng: &mut Rng, budget: usize) -> Vec<u8> {
             // a value that itself starts with the v2 signature (a nested / forwarded header)
             out[start..start + 12].copy_from_slice(&SIG);
         }
+    }
+    match rng.below(24) {
+        // the signature at a TLV boundary (a second header swallowed by the declared length): it
+        // reads as a TLV of type 0x0D and length 0x0A0D = 2573 - overrunning, or with all of its
+        // value present
+        0 if budget >= out.len() + 16 => {
+            out.extend_from_slice(&SIG);
+            let have = if budget >= out.len() + 2563 && rng.coin() { 2573 - 9 } else { rng.below((budget - out.len()).min(40) as u64 + 1) as usize };
+            let start = out.len();
+            out.resize(start + have, 0);
+            rng.fill(&mut out[start..]);
+        }
+        // zero bytes up to the end: one to three empty type-0 TLVs
+        1 if budget >= out.len() + 9 && !out.is_empty() => {
+            for _ in 0..rng.range(1, 3) {
+                out.extend_from_slice(&[0, 0, 0]);
+            }
+        }
+        _ => {}
     }
     out
 }
@@ -394,6 +435,28 @@ pub fn valid_header_budget(rng: &mut Rng, buf: &mut Vec<u8>, vc: u8, fp: u8, sma
             let start = buf.len();
             buf.resize(start + l, 0);
             rng.fill(&mut buf[start..]);
+        }
+    }
+    if rng.chance(1, 24) && buf.len() >= 16 + size + 12 {
+        // a payload / TLV section that begins with the signature (a header wrapped in a header)
+        let at = if rng.coin() || size == 0 { 16 } else { 16 + size };
+        buf[at..at + 12].copy_from_slice(&SIG);
+    }
+    let mut kind = kind;
+    if fam != 0 && kind == "wellformed" && buf.len() + 7 <= 16 + 65535 && buf.len() < 3000 && rng.chance(1, 10) {
+        // a PP2_TYPE_CRC32C TLV carrying the correct checksum: CRC-32C of the whole header with
+        // the checksum field zero (only a sender that computes it exposes a receiver that verifies
+        // it over the wrong span)
+        buf.extend_from_slice(&[0x03, 0x00, 0x04, 0, 0, 0, 0]);
+        let declared = buf.len() - 16;
+        buf[14] = (declared >> 8) as u8;
+        buf[15] = declared as u8;
+        if tlv_ref(&buf[16 + size..]).1 == TlvEnd::Clean {
+            let c = crc32c(buf);
+            let n = buf.len();
+            buf[n - 4..].copy_from_slice(&c.to_be_bytes());
+        } else {
+            kind = "random";
         }
     }
     let declared = buf.len() - 16;
@@ -818,5 +881,13 @@ pub fn tlv_case(stream_name: &str, idx: u64, seed: u64) -> Vec<u8> {
             v
         }
         _ => Vec::new(),
+    }
+}
+
+#[cfg(test)]
+mod tests {
+    #[test]
+    fn crc32c_check_value() {
+        assert_eq!(super::crc32c(b"123456789"), 0xE306_9283);
     }
 }
